@@ -962,7 +962,7 @@ impl<'a, 'b> Gen<'a, 'b> {
     }
 
     fn gen_any(&mut self, d: usize) -> Sx {
-        match self.c.weighted(&[10, 1, 1, 1, 1, 1]) {
+        match self.c.weighted(&[10, 1, 1, 1, 1, 1, 1]) {
             0 => {
                 let t = self.data_ty();
                 self.gen(&t, d)
@@ -992,6 +992,31 @@ impl<'a, 'b> Gen<'a, 'b> {
                 let l = self.gen(&list_of(Ty::Sym), d - 1);
                 self.features.insert("or");
                 call("or", vec![call("memq", vec![k, l]), Sx::quote(s("none"))])
+            }
+            5 => {
+                // quasiquote template with a literal dotted tail (a constant that only the
+                // template's code refers to): `(,x ... . tail)
+                self.features.insert("quasiquote");
+                self.features.insert("qq-literal-dotted-tail");
+                let saved_floor = self.qq_floor;
+                let n = 1 + self.c.below(3);
+                let mut items = vec![];
+                for _ in 0..n {
+                    if self.c.chance(170) {
+                        let e = self.gen(&Ty::Int, d - 1);
+                        items.push(lst(vec![s("unquote"), e]));
+                    } else {
+                        items.push(self.datum_of(&Ty::Int));
+                    }
+                }
+                self.qq_floor = saved_floor;
+                let tail = match self.c.below(4) {
+                    0 => s(*self.c.pick(&["the-end", "tail-sym", "omega"][..])),
+                    1 => Sx::Str("tail".into()),
+                    2 => Sx::Vector(vec![int(1), s("v")]),
+                    _ => int(7),
+                };
+                lst(vec![s("quasiquote"), Sx::Dotted(items, Box::new(tail))])
             }
             _ => {
                 let c = self.gen(&Ty::Bool, d - 1);
